@@ -107,8 +107,11 @@ def gen_history(rng, n, ng_heavy=False):
             h.append(['assert', rng.choice(['p', 'f']), rng.choice('abc'), rng.random() < 0.5, rng.random() < 0.5])
         elif k < 0.38:
             h.append(['assertng', rng.choice(['g', 'g', 'h'])])
-        elif k < 0.42:
+        elif k < 0.4:
             h.append(['retract', rng.choice(['p', 'f']), rng.randrange(3)])
+        elif k < 0.42:
+            # a retract kept suspended at its first answer (later `step` / `close` ops act on it)
+            h.append(['startretract', rng.choice(['p', 'f'])])
         elif k < 0.46:
             h.append(['retractall', rng.choice(['p', 'f']), rng.choice('abc')])
         elif k < 0.52:
@@ -277,6 +280,15 @@ class EngineRun:
                 pass
             g.close()
             return r
+        if kind == 'startretract':
+            if len(self.tasks) >= self.max_tasks:
+                return 'noop'
+            x = yp.variable()
+            t = GenTask(yp.query('retract', [yp.functor(op[1], [x])]))
+            if t.step():
+                self.tasks.append([t, x])
+                return to_python(x)
+            return 'END'
         if kind == 'retractall':
             return sum(1 for _ in yp.query('retractall', [yp.functor(op[1], [yp.atom(op[2] + self.tag)])]))
         if kind == 'register':
@@ -420,7 +432,17 @@ def execute(plan):
                     note(i)
                     engines[i].step()
             return run
-        ok = baton.run([body(i) for i in range(n)], first=plan['sched_seed'] % n)
+        ok = baton.run([body(i) for i in range(n)], first=plan['sched_seed'] % n, wall_cap=80.0, block_s=15.0)
+        if ok == 'blocked':
+            # the running engine waits for something that only another, parked engine could release
+            h = baton.holder
+            e = engines[h] if h is not None and h < n else None
+            log.violation('engine-blocked', {'engine': h, 'mode': mode, 'op_index': None if e is None else e.pc - 1,
+                                             'op': None if e is None or not (0 < e.pc <= len(e.hist)) else e.hist[e.pc - 1],
+                                             'note': 'no pre-emption point reached for 15 s while every other engine was parked: it blocks on something another engine holds'})
+            if plan.get('schedule') is None:
+                extra['schedule'] = [list(x) for x in baton.switches]
+            return log.result(extra=extra)
         if not ok or baton.errors:
             raise core.HarnessError('thread mode stalled or failed: %r' % (baton.errors,))
         log.count('preemption_points', baton.points)
